@@ -72,7 +72,8 @@ def build_trees(thorough):
                 d = f"sub-{sub}" + ("/ses-1" if ses else "")
                 n = f"sub-{sub}" + ("_ses-1" if ses else "") + f"_task-{task}" + ("_run-1" if run else "") + "_events.tsv"
                 return d + "/" + n
-            events = [ev("01", "A"), ev("01", "B"), ev("02", "A")]
+            # the last one lies in the dataset root itself (no directory component below the root)
+            events = [ev("01", "A"), ev("01", "B"), ev("02", "A"), "task-A" + ("_run-1" if run else "") + "_events.tsv"]
             ses_opts = [[]] if not ses else [[], ["sub-01_ses-1_events.json"], ["sub-01_ses-1_task-A_events.json"]]
             for r, s1, s2, se in itertools.product(root_opts, sub1_opts, sub2_opts, ses_opts):
                 for decoy in ((False, True) if (thorough or (not r and not se)) else (False,)):
@@ -215,6 +216,8 @@ def check_tree(env, rec, root, tree, ti):
             return
         if not warn:
             n_errors = len(want)
+        else:
+            n_with_warnings = len(want)
     # 3. command line validator: non-zero iff that list is non-empty
     if ti % 4 == 0:
         from hed.scripts import hed_validator
@@ -232,6 +235,32 @@ def check_tree(env, rec, root, tree, ti):
             sys.argv = old
         if rc is not None and bool(rc) != bool(n_errors):
             rec.violation("C16:cli-exit-code", rc=rc, expected_issues=n_errors, **where)
+        # the same with warnings requested, and with the machine-readable output formats
+        for extra, n_expected in ((["--check-for-warnings"], n_with_warnings), (["-f", "json"], n_errors),
+                                  (["-f", "json_pp", "--check-for-warnings"], n_with_warnings)):
+            sys.argv = ["hed_validator", root] + extra
+            buf = io.StringIO()
+            try:
+                with contextlib.redirect_stdout(buf):
+                    rc = hed_validator.main()
+            except SystemExit as e:
+                rc = e.code
+            except Exception as e:
+                rec.violation(f"C16:cli-raises:{type(e).__name__}:{' '.join(extra)}", error=repr(e)[:200], **where)
+                continue
+            finally:
+                sys.argv = old
+            rec.n("transitions")
+            if bool(rc) != bool(n_expected):
+                rec.violation("C16:cli-exit-code:" + " ".join(extra), rc=rc, expected_issues=n_expected, **where)
+            if "-f" in extra and n_expected:
+                out = buf.getvalue()
+                try:
+                    parsed = json.loads(out[out.index("{"):])["issues"]
+                    if len(parsed) != n_expected:
+                        rec.violation("C16:cli-json-issue-count", got=len(parsed), expected=n_expected, **where)
+                except Exception as e:
+                    rec.violation("C16:cli-json-output-not-parseable", error=repr(e)[:120], output=out[:200], **where)
     rec.outcome(f"ok:issues={'some' if n_errors else 'none'}")
 
 
